@@ -1495,65 +1495,76 @@ impl Interpreter {
         Ok(StepResult::Continue)
     }
 
-    /// Process any pending module sources that are ready to execute.
-    /// This executes modules in dependency order until all are executed
-    /// or some still have missing imports.
-    /// Process pending modules that have all their imports satisfied.
-    /// Returns a list of unprovided imports if some pending modules still need dependencies
-    /// that the host hasn't provided yet.
-    fn process_pending_modules(&mut self) -> Result<Vec<crate::ImportRequest>, JsError> {
-        loop {
-            // Collect all unprovided imports across all pending modules
-            // (imports that the host hasn't provided yet)
-            let mut all_unprovided: Vec<crate::ImportRequest> = Vec::new();
-            let mut ready_modules: Vec<crate::ModulePath> = Vec::new();
+    /// Execute the pending (host-provided) modules the waiting program depends on.
+    ///
+    /// Nothing is evaluated until every module of the graph has been provided; if some
+    /// pending module still needs sources from the host, those requests are returned.
+    /// Once the graph is complete, modules are evaluated dependencies-first, following
+    /// each module's import list in source order starting from `roots` (the waiting
+    /// program's own imports). The evaluation order therefore does not depend on the
+    /// order or batching in which the host supplied the sources.
+    fn process_pending_modules(
+        &mut self,
+        roots: &[crate::ImportRequest],
+    ) -> Result<Vec<crate::ImportRequest>, JsError> {
+        // Phase 1: does the host still have to provide something?
+        let mut pending_keys: Vec<crate::ModulePath> =
+            self.pending_module_sources.keys().cloned().collect();
+        pending_keys.sort_by(|a, b| a.as_str().cmp(b.as_str()));
 
-            // Clone keys to avoid borrow issues
-            let pending_keys: Vec<crate::ModulePath> =
-                self.pending_module_sources.keys().cloned().collect();
-
-            for module_path in &pending_keys {
-                // Skip if already loaded
-                if self.loaded_modules.contains_key(module_path) {
-                    continue;
-                }
-
-                // Get the program to check its imports
-                if let Some(program) = self.pending_module_sources.get(module_path) {
-                    let imports = self.collect_import_requests(program, Some(module_path));
-                    // Check if all imports are LOADED (not just provided)
-                    let missing_from_loaded = self.filter_missing_imports(imports.clone());
-
-                    if missing_from_loaded.is_empty() {
-                        // All imports are loaded - this module is ready to execute
-                        ready_modules.push(module_path.clone());
-                    } else {
-                        // Check which imports the HOST still needs to provide
-                        let unprovided = self.filter_unprovided_imports(imports);
-                        for req in unprovided {
-                            let already_in_list = all_unprovided
-                                .iter()
-                                .any(|r| r.resolved_path == req.resolved_path);
-                            if !already_in_list {
-                                all_unprovided.push(req);
-                            }
-                        }
+        let mut all_unprovided: Vec<crate::ImportRequest> = Vec::new();
+        for module_path in &pending_keys {
+            // Skip if already loaded
+            if self.loaded_modules.contains_key(module_path) {
+                continue;
+            }
+            if let Some(program) = self.pending_module_sources.get(module_path) {
+                let imports = self.collect_import_requests(program, Some(module_path));
+                for req in self.filter_unprovided_imports(imports) {
+                    let already_in_list = all_unprovided
+                        .iter()
+                        .any(|r| r.resolved_path == req.resolved_path);
+                    if !already_in_list {
+                        all_unprovided.push(req);
                     }
                 }
             }
-
-            // If we have modules ready to execute, execute them
-            if !ready_modules.is_empty() {
-                for module_path in ready_modules {
-                    self.execute_pending_module(&module_path)?;
-                }
-                // Continue the loop to check if more modules are now ready
-                continue;
-            }
-
-            // Return any imports the host still needs to provide
+        }
+        if !all_unprovided.is_empty() {
             return Ok(all_unprovided);
         }
+
+        // Phase 2: the graph is complete - evaluate in dependency-first source order
+        let mut order: Vec<crate::ModulePath> = Vec::new();
+        let mut visited: FxHashSet<crate::ModulePath> = FxHashSet::default();
+        for req in roots {
+            self.pending_module_post_order(&req.resolved_path, &mut visited, &mut order);
+        }
+        for module_path in order {
+            if self.pending_module_sources.contains_key(&module_path) {
+                self.execute_pending_module(&module_path)?;
+            }
+        }
+        Ok(Vec::new())
+    }
+
+    /// Depth-first post-order over the pending modules reachable from `path`.
+    fn pending_module_post_order(
+        &self,
+        path: &crate::ModulePath,
+        visited: &mut FxHashSet<crate::ModulePath>,
+        order: &mut Vec<crate::ModulePath>,
+    ) {
+        if !visited.insert(path.clone()) || self.loaded_modules.contains_key(path) {
+            return;
+        }
+        let Some(program) = self.pending_module_sources.get(path) else {
+            return;
+        };
+        for req in self.collect_import_requests(program, Some(path)) {
+            self.pending_module_post_order(&req.resolved_path, visited, order);
+        }
+        order.push(path.clone());
     }
 
     /// Set up VM from a pending program (called when imports have been provided)
@@ -1581,7 +1592,7 @@ impl Interpreter {
 
         // Execute any pending modules before setting up the main program
         // This will execute in topological order (dependencies first)
-        let pending_module_unprovided = self.process_pending_modules()?;
+        let pending_module_unprovided = self.process_pending_modules(&imports)?;
         if !pending_module_unprovided.is_empty() {
             // Pending modules have dependencies the host hasn't provided yet
             self.pending_program = Some(program);
